@@ -3,6 +3,7 @@ import Proofs.RdataTextNum
 import Proofs.RdataTextEsc
 import Proofs.RdataTextRec
 import Proofs.RdataTextEnc
+import Proofs.RdataTextPrint
 /-!
 # C05 — every record type's master-file text parses back to an equal record
 
@@ -290,6 +291,43 @@ theorem text_accepts_encodable (tn : String) (htn : tn ∈ encodableTypes) (env 
                 rw [hw]; rfl
               · cases h
             · cases h
+
+/-- "producing text never fails for a record the library accepted from text": for **every** schema type (all 65) and
+*any* text, origin, relativize and relativize_to, whatever `dns.rdata.from_text` returns through the type's own syntax
+can be printed under every style whose name handling succeeds on the names of the value (`NamesPrint`: `choose_relativity`
+raises only `NameTooLong`, when `relativize=False` asks to complete a relative name with an origin it does not fit —
+with no style origin, or `relativize=True`, it never raises, see `namesPrint_of_no_origin`).  No other field can make
+`to_styled_text` raise: addresses have 4 / 16 octets, numbers, mnemonics, times, blobs and strings always print. -/
+theorem text_accepted_prints (tn : String) (sch : Schema) (hsch : schemaOf tn = some sch) (env : PEnv) (text : Text)
+    (toks : List Tok) (hl : lexLine text = some toks) (hg : isGenericStart toks = false)
+    (vals : List FV) (tail : Option FV) (h : fromTextRdata (some tn) env text = some (.known vals tail))
+    (st : Style) (hn : NamesPrint st vals tail) : (printRec sch st vals tail).isSome = true := by
+  unfold fromTextRdata at h
+  simp only [hl, hsch, hg, Bool.false_eq_true, if_false] at h
+  cases hp : parseRec sch env toks with
+  | none => simp [hp] at h
+  | some p =>
+    obtain ⟨v, t⟩ := p
+    simp only [hp, Option.map_some, Option.some.injEq, Parsed.known.injEq] at h
+    obtain ⟨rfl, rfl⟩ := h
+    exact record_printable sch env st toks _ _ hp hn
+
+/-- a style without origin prints every name as it is stored -/
+theorem namesPrint_of_no_origin (st : Style) (ho : st.origin = none) (vals : List FV) (tail : Option FV) :
+    NamesPrint st vals tail := by
+  have h : ∀ n, NamePrints st n := fun n => ⟨toText n, by simp [nameToStyled, chooseRelativity, ho]⟩
+  exact ⟨fun _ _ n _ => h n, fun _ _ n _ => h n⟩
+
+/-- non-vacuity: the hypotheses are satisfiable — `TXT "a\200" ""` is accepted from its text (by `parseText_printText`)
+and its names (none) print under every style -/
+example : ∃ sch text, schemaOf "TXT" = some sch ∧
+    fromTextRdata (some "TXT") {} text = some (.known [] (some (.bl [[97, 200], []]))) ∧
+    NamesPrint {} [] (some (.bl [[97, 200], []])) ∧ (printRec sch {} [] (some (.bl [[97, 200], []]))).isSome = true := by
+  have hw : WfText "TXT" {} {} [] (some (.bl [[97, 200], []])) := by
+    refine ⟨_, rfl, trivial, ⟨by simp, ?_⟩, by decide, rfl⟩
+    intro s hs; simp at hs; rcases hs with rfl | rfl <;> refine ⟨by decide, by decide⟩
+  obtain ⟨sch, text, h1, h2, h3⟩ := parseText_printText "TXT" {} {} [] _ hw
+  exact ⟨sch, text, h1, h3, namesPrint_of_no_origin {} rfl _ _, by rw [h2]; rfl⟩
 
 /-- non-vacuity: `CAA 0 issue "ca.example"`'s value is packed (the value field is the rest of the rdata) -/
 example : (schemaOf "CAA").bind (fun sch => encRec "CAA" sch (some [[]]) [.n 0, .b [105], .b [99, 97]] none)
